@@ -12,29 +12,39 @@ META = {
     'level_text': 'Theorems for all histories, all clock readings, all oracles (datatype conversion, Python ==): replay_eq_cache / '
                   'reconstructs (folding the emitted update and error_update messages over the initial value-or-error gives the cached '
                   'value-or-error, after every prefix), order_preserved, never_phantom, recovery_announced(+_trace), change_announced; '
-                  'and for all schedules of any number of threads over the small-step system cut at the lock / store / notify primitives: '
-                  'one_thread_inside, sub_lock_nested, interleaving_atomic (every connection\'s per-parameter log is the message list of a '
-                  'sequential run of the completed calls), hist_is_interleaving (those calls are a shuffle of the thread programs), '
-                  'quiescent_is_sequential, conc_ok.  The models are tied to modulebase.announceUpdate, the '
-                  'read/write wrappers, Parameter.__set__/finish and dispatcher.make_update/broadcast_event by a correspondence run '
-                  '(sequential histories + labelled scheduled runs) and the Lean monitors judge every implementation trace.',
+                  'for a client that knows NOTHING before it activates: snapshot_covers (the snapshot gives a state for every '
+                  'subscribed parameter, and it is the cached one), activate_then_history / activate_replay_eq_cache (snapshot followed '
+                  'by any history); and for all schedules of any number of threads — funnel calls and activate requests — over the '
+                  'small-step system cut at the lock / store / notify / register / snapshot primitives: '
+                  'one_thread_inside, sub_lock_nested, interleaving_atomic (the per-parameter log of a connection activated all along is the '
+                  'message list of a sequential run of the completed calls), hist_is_interleaving (those calls are a shuffle of the thread '
+                  'programs), quiescent_is_sequential, conc_ok, activation_coherent (in every reachable state a connection subscribed before '
+                  'the run or sent the snapshot during it knows exactly the cache of every parameter with no call in flight), '
+                  'snapshot_after_registration, conc_ok_activation.  The models are tied to modulebase.announceUpdate, the '
+                  'read/write wrappers, Parameter.__set__/finish and dispatcher.make_update/broadcast_event/handle_request/handle_activate by a '
+                  'correspondence run (sequential histories with activations of several connections + labelled scheduled runs) and generated '
+                  'source facts (callbacks_all_caught, activate_shape); the Lean monitors judge every implementation trace from the '
+                  'activation of each connection on.',
     'level_note': 'Trusted: Lean kernel + axioms propext/Quot.sound; hypothesis ExportExact (values Python\'s != does not tell apart '
                   'have the same exported form) is re-tested on every sampled pair; callbacks re-entering the SAME parameter, callback trees deeper than one follower level, callbacks raising '
-                  'BaseException, callbacks inside the small-step (concurrent) system and activation/deactivation boundaries (C08) '
-                  'are not modelled; CPython executes a single '
+                  'BaseException, callbacks inside the small-step (concurrent) system and DEactivation / disconnection (C08) '
+                  'are not modelled; the small-step system has one module (the per-module update locks of a general activation are '
+                  'taken one after the other; only one is modelled); CPython executes a single '
                   'attribute store / list append atomically; atomicity is proved for the model\'s lock structure and validated against '
                   'the code by scheduled runs whose label sequence the model must follow.',
     'trusted': [
         'ExportExact: two values of one exported datatype for which `a != b` is false have the same exported form (checked on every pool)',
         'vlib.sched yields before every lock/send primitive; one bytecode-level attribute store is atomic (GIL)',
         'an element of the error carrier stands for what SECoPError.__eq__ compares; the harness identifies it by (name, text)',
+        'the test connections hash by their number, so the set iteration order in broadcast_event is ascending (configuration of the run)',
     ],
     'modelled_not_verified': [
         'datatype conversion / validation (oracle tables computed by the real datatypes)',
         'what a callback function does (oracle: returns / TypeError / other Exception, optional call of another funnel)',
         'the transport behind connection.send_reply (observed at send_reply)',
+        'which parameters a specifier subscribes to (computed by the harness: all exported parameters of the module(s) / the named one)',
     ],
-    'assumptions': ['the connection is activated before the history starts and stays activated (boundaries: C08)',
+    'assumptions': ['a connection, once activated, stays activated (deactivation and disconnection: C08)',
                     'the clock never returns 0'],
 }
 
@@ -179,13 +189,17 @@ def uu_model(uu, tables):
 
 
 def make_class(specs):
-    """specs: {pname: (datatype, default or NODEFAULT, update_unchanged, has_write, has_check)}"""
+    """specs: {pname: (datatype, default or NODEFAULT, update_unchanged, has_write, has_check[, readonly])}
+    every generated class also has the parameter `h` that is NOT exported: no message may ever name it"""
+    from frappy.datatypes import FloatRange
     from frappy.modules import Module
     from frappy.params import Parameter
-    attrs = {}
-    for pn, (dt, default, uu, has_write, has_check) in specs.items():
+    attrs = {'h': Parameter('not exported', FloatRange(), default=0.0, readonly=False, export=False, update_unchanged='always')}
+    for pn, spec in specs.items():
+        dt, default, uu, has_write, has_check = spec[:5]
+        readonly = bool(spec[5]) if len(spec) > 5 else False
         kw = {} if default is NODEFAULT else {'default': default}
-        attrs[pn] = Parameter('generated', dt, readonly=False, update_unchanged=uu, **kw)
+        attrs[pn] = Parameter('generated', dt, readonly=readonly, update_unchanged=uu, **kw)
 
         def rfunc(self, pn=pn):
             r = self.script[_threading.get_ident(), pn, 'r']
@@ -231,7 +245,7 @@ def build(case, clock, sched=None):
         factory, valid, _ = cat[ps['kind']]
         dt = factory()
         default = NODEFAULT if ps['nodefault'] else valid[0]
-        specs[PNAMES[pid]] = (dt, default, ps['uu'], ps['has_write'], ps['has_check'])
+        specs[PNAMES[pid]] = (dt, default, ps['uu'], ps['has_write'], ps['has_check'], ps.get('readonly', False))
     cls = make_class(specs)
     cfg = {'cls': cls, 'description': 'generated'}
     if case['mw'] is not None:
@@ -286,6 +300,8 @@ def do_op(m, case, pid, op, errs):
             getattr(m, 'write_' + pn)(raw_of(case, pid, ridx))
         elif kind == 'assign':
             setattr(m, pn, raw_of(case, pid, op[1]))
+        elif kind == 'hidden':
+            m.h = float(op[1])                 # the funnel of a parameter that is not exported
         elif kind == 'announce':
             _, vidx, eidx, validate = op[:4]
             value, validate = announce_arg(m.parameters[pn].datatype, case, pid, vidx, eidx, validate)
@@ -340,6 +356,8 @@ def wire_op(ids, case, pid, op, errs):
         return ['write', ids.vid(pid, raw_of(case, pid, ridx)), checks_ok, wres]
     if kind == 'assign':
         return ['assign', ids.vid(pid, raw_of(case, pid, op[1]))]
+    if kind == 'hidden':
+        return ['hidden', int(op[1])]
     _, vidx, eidx, validate = op[:4]
     value, validate = announce_arg(ids.dts[pid], case, pid, vidx, eidx, validate)
     return ['announce', None if vidx is None else ids.vid(pid, value),
@@ -374,6 +392,87 @@ def spec_pid(spec):
     return None
 
 
+# ----------------------------------------------------------------------------------------
+# activation: every connection's stream starts with its `activate` request (the snapshot is part of the stream)
+# an activation step is ['activate', connection index, kind, target]: kind 'all' (no specifier), 'mod' (module
+# `target`), 'par' (parameter p of module `target`); in the one-module suites `target` is the parameter index
+# ----------------------------------------------------------------------------------------
+ACT_KINDS = ['all', 'all', 'mod', 'par']
+
+
+def norm_steps(steps):
+    """a history without any activation (recorded before activations were observed) starts with the general
+    activation of connection 0"""
+    if any(st[1][0] == 'activate' for st in steps):
+        return [list(st) for st in steps]
+    return [[0, ['activate', 0, 'all', 0]]] + [list(st) for st in steps]
+
+
+def n_conns(steps):
+    return 1 + max(st[1][1] for st in steps if st[1][0] == 'activate')
+
+
+def act_pids(op, npids):
+    """the parameters an activation subscribes to (and gets the snapshot of), in the order they are sent"""
+    return list(range(npids)) if op[2] == 'all' else [op[3] % npids]
+
+
+def drain_conns(ids, conns, pid_of):
+    """what every connection received since the last call: [[pid, value-or-error, t], ...] per connection"""
+    recv, other = [], []
+    for c in conns:
+        got = []
+        for item in c.msgs:
+            msg = item[0] if isinstance(item, tuple) and len(item) == 2 and isinstance(item[0], tuple) else item
+            pid = pid_of(msg[1]) if msg[0] in ('update', 'error_update') else None
+            if pid is None:
+                other.append(str(msg[0]))
+            else:
+                ve, t = msg_obs(ids, pid, msg)
+                got.append([pid, ve, t])
+        c.msgs.clear()
+        recv.append(got)
+    return recv, other
+
+
+def stream_judge_reqs(steps, outs, init_x, npids):
+    """one request per (connection, parameter it subscribed to): its stream from the first activation covering the
+    parameter on; the client knows nothing before (`init: null`), `prev` = the cache when that activation starts.
+    returns [(connection index, pid, first step, request)]"""
+    reqs = []
+    for ci in range(n_conns(steps)):
+        for pid in range(npids):
+            first = next((i for i, st in enumerate(steps)
+                          if st[1][0] == 'activate' and st[1][1] == ci and pid in act_pids(st[1], npids)), None)
+            if first is None:
+                continue
+            prev = init_x[pid] if first == 0 else outs[first - 1]['caches_x'][pid]
+            trace = [{'msgs': [ve for q, ve, _ in o['recv'][ci] if q == pid], 'cache': o['caches_x'][pid]}
+                     for o in outs[first:]]
+            reqs.append((ci, pid, first, {'p': 'C05', 'k': 'judge_seq', 'init': None, 'prev': prev, 'trace': trace}))
+    return reqs
+
+
+def compare_recv(run_outs, ans_outs, ex):
+    if len(run_outs) != len(ans_outs):
+        return f'{len(ans_outs)} model steps, {len(run_outs)} implementation steps'
+    for i, (mo, io) in enumerate(zip(ans_outs, run_outs)):
+        mr = [[[pid, ex_ve(ex, ve), t] for pid, ve, t in per] for per in mo['recv']]
+        if mr != io['recv']:
+            return f'step {i}: per connection received: model {mr} impl {io["recv"]}'
+    return None
+
+
+def drop_loggers(node):
+    """the `logging` module keeps every logger ever made, and `Logger.setLevel` walks over all of them: forget the
+    loggers of a node that is thrown away (otherwise a run is quadratic in the number of cases)"""
+    import logging
+    d = logging.Logger.manager.loggerDict
+    prefix = node.root.name
+    for name in [n for n in d if n == prefix or n.startswith(prefix + '.')]:
+        del d[name]
+
+
 def prepare(case, errs):
     """ids, oracle tables and the initial entries of a freshly built node (the node is thrown away)"""
     clock = Clock(T0)
@@ -388,6 +487,7 @@ def prepare(case, errs):
         ids.vid(pid, m.parameters[PNAMES[pid]].value)
     for e in errs:
         ids.eid(e)
+    drop_loggers(node)
     return ids, conv, valid
 
 
@@ -403,7 +503,7 @@ def entry_json(ids, m, case, pid, tables):
 # sequential histories
 # ----------------------------------------------------------------------------------------
 def impl_seq(case, errs, tables):
-    """run a history on the real code: request for the model, observation per operation"""
+    """run a history on the real code: request for the model, observation per step (operations and activations)"""
     import frappy.modulebase as mb
     saved = mb.time
     try:
@@ -411,30 +511,40 @@ def impl_seq(case, errs, tables):
         clock = Clock(T0)
         node, m, dts = build(case, clock)
         ids.dts = dts
-        conn = node.connect()
-        node.request(conn, 'activate', None, None)
-        conn.msgs.clear()
+        steps = norm_steps(case['ops'])
+        conns = [node.connect() for _ in range(n_conns(steps))]          # cids 1..n
         entry = entry_json(ids, m, case, 0, tables)
         real_window = int(round(m.parameters['p'].omit_unchanged_within * TICKS))
         init_py, init_x, _ = cache_obs(ids, m, 0)
         now = T0
         ops, outs = [], []
-        for dt, op in case['ops']:
+        for dt, op in steps:
             now += dt
             clock.ticks = now
-            ops.append({'now': now, 'op': wire_op(ids, case, 0, op, errs)})
-            do_op(m, case, 0, op, errs)
-            msgs = [msg_obs(ids, 0, msg) for msg in conn.msgs if spec_pid(msg[1]) == 0 and msg[0] in ('update', 'error_update')]
-            other = [msg[0] for msg in conn.msgs if not (spec_pid(msg[1]) == 0 and msg[0] in ('update', 'error_update'))]
-            conn.msgs.clear()
+            failed = []
+            if op[0] == 'activate':
+                ops.append({'now': now, 'op': ['activate', op[1] + 1, [0]]})
+                reply = node.request(conns[op[1]], 'activate', {'all': None, 'mod': 'm', 'par': 'm:_p'}[op[2]], None)
+                if reply[0] != 'active':
+                    failed = ['activate:' + str(reply[0])]
+            else:
+                ops.append({'now': now, 'op': wire_op(ids, case, 0, op, errs)})
+                do_op(m, case, 0, op, errs)
+            recv, other = drain_conns(ids, conns, spec_pid)
             py, x, ts = cache_obs(ids, m, 0)
-            outs.append({'msgs': msgs, 'cache_py': py, 'cache_x': x, 'ts': ts, 'other': other})
+            outs.append({'recv': recv, 'cache_py': py, 'cache_x': x, 'caches_x': [x], 'ts': ts, 'other': other + failed})
+        main = next(st[1][1] for st in steps if st[1][0] == 'activate')
+        for o in outs:
+            o['msgs'] = [[ve, t] for _, ve, t in o['recv'][main]]
         pairs, ex, bad_law = eq_pairs(ids)
-        req = {'p': 'C05', 'k': 'seq', 'eq': pairs, 'conv': conv, 'valid': valid, 'entry': entry, 'ops': ops}
+        req = {'p': 'C05', 'k': 'seq', 'eq': pairs, 'conv': conv, 'valid': valid, 'entry': entry, 'ops': ops,
+               'cids': list(range(1, len(conns) + 1))}
         return {'req': req, 'outs': outs, 'init_x': init_x, 'init_py': init_py, 'ex': ex, 'bad_law': bad_law,
-                'real_window': real_window}
+                'real_window': real_window, 'steps': steps}
     finally:
         mb.time = saved
+        if 'node' in locals():
+            drop_loggers(node)
 
 
 def ex_ve(ex, ve):
@@ -447,21 +557,27 @@ def compare_seq(run, ans):
         return f'window: model {ans["window"]} impl {run["real_window"]}'
     if ans['init'] != run['init_py']:
         return f'initial entry: model {ans["init"]} impl {run["init_py"]}'
+    diff = compare_recv(run['outs'], ans['outs'], run['ex'])
+    if diff:
+        return diff
     for i, (mo, io) in enumerate(zip(ans['outs'], run['outs'])):
-        mm = [[ex_ve(run['ex'], ve), t] for ve, t in mo['msgs']]
-        im = [[ve, t] for ve, t in io['msgs']]
-        if mm != im:
-            return f'op {i}: messages model {mm} impl {im}'
         if mo['cache'] != io['cache_py'] or mo['ts'] != io['ts']:
-            return f'op {i}: cache model {mo["cache"]}@{mo["ts"]} impl {io["cache_py"]}@{io["ts"]}'
+            return f'step {i}: cache model {mo["cache"]}@{mo["ts"]} impl {io["cache_py"]}@{io["ts"]}'
         if io['other']:
-            return f'op {i}: unexpected messages {io["other"]}'
+            return f'step {i}: unexpected messages {io["other"]}'
     return None
 
 
-def judge_req_seq(run):
-    return {'p': 'C05', 'k': 'judge_seq', 'init': run['init_x'],
-            'trace': [{'msgs': [ve for ve, _ in o['msgs']], 'cache': o['cache_x']} for o in run['outs']]}
+def judge_reqs_seq(run):
+    return stream_judge_reqs(run['steps'], run['outs'], [run['init_x']], 1)
+
+
+def first_bad(jreqs, answers):
+    """first stream the monitor rejects: (connection index, pid, step index, clause)"""
+    for (ci, pid, first, _), jd in zip(jreqs, answers):
+        if jd.get('bad') is not None:
+            return [ci, pid, first + jd['bad'][0], jd['bad'][1]]
+    return None
 
 
 def gen_op(rng, ps, nvalid, nall, nerr):
@@ -476,8 +592,10 @@ def gen_op(rng, ps, nvalid, nall, nerr):
     if r < 0.66:
         w = rng.choice([['none'], ['none'], ['ret', val()], ['ret', val()], ['raise', rng.randrange(nerr)], ['done']])
         return ['write', val(), rng.choice(['ok', 'ok', 'ok', 'stop', 'raise']), w]
-    if r < 0.84:
+    if r < 0.81:
         return ['assign', val()]
+    if r < 0.84:
+        return ['hidden', rng.randrange(3)]
     if r < 0.92:
         return ['announce', None if rng.random() < 0.5 else val(), rng.choice([0, 0, 1, 3, 6]), True]
     return ['announce', val(), None, rng.random() < 0.6]
@@ -486,7 +604,8 @@ def gen_op(rng, ps, nvalid, nall, nerr):
 def gen_params(rng, n):
     kinds = list(catalogue())
     return [{'kind': rng.choice(kinds), 'uu': rng.choice(UU), 'nodefault': rng.random() < 0.2,
-             'has_write': rng.random() < 0.7, 'has_check': rng.random() < 0.3} for _ in range(n)]
+             'has_write': rng.random() < 0.7, 'has_check': rng.random() < 0.3, 'readonly': rng.random() < 0.3}
+            for _ in range(n)]
 
 
 def gen_seq(rng, big):
@@ -506,6 +625,12 @@ def gen_seq(rng, big):
             op = list(sticky)                      # repeat the previous operation (unchanged value / identical error)
         sticky = op
         case['ops'].append([rng.choice(steps), op])
+    # activations: most histories start with one; more connections join (or re-activate) at random places
+    if rng.random() < 0.85:
+        case['ops'].insert(0, [0, ['activate', 0, rng.choice(ACT_KINDS), 0]])
+    for _ in range(rng.choice([0, 0, 1, 1, 2, 3])):
+        case['ops'].insert(rng.randrange(len(case['ops']) + 1),
+                           [rng.choice(steps), ['activate', rng.choice([0, 1, 1, 2]), rng.choice(ACT_KINDS), 0]])
     return case
 
 
@@ -518,6 +643,14 @@ def make_snapconn():
     class SnapConn(Conn):
         """recording connection that also notes what the cache holds at the instant of delivery"""
         snap = None
+
+        # `broadcast_event` visits its listeners in the iteration order of a set: with the connection number as hash the
+        # order is a function of the numbers (ascending, no collisions for small numbers), not of memory addresses
+        def __hash__(self):
+            return self.cid
+
+        def __eq__(self, other):
+            return self is other
 
         def send_reply(self, msg):
             if self.sched is not None:
@@ -541,14 +674,17 @@ def impl_conc(case, errs, tables, policy):
             ids.dts = dts
             SnapConn = make_snapconn()
             conns = []
-            for cid in range(1, case['nconn'] + 1):
+            npar = len(case['params'])
+            nconn = case['nconn']
+            for cid in range(1, nconn + 1):
                 c = SnapConn(cid, s)
                 node.conns[cid] = c
                 node.dispatcher.add_connection(c)
-                node.request(c, 'activate', None, None)
-                c.msgs.clear()
                 conns.append(c)
-            npar = len(case['params'])
+            for ci, kind, target in conc_pre(case):
+                node.request(conns[ci % nconn], 'activate', conc_spec(kind, target, npar), None)
+            for c in conns:
+                c.msgs.clear()
 
             def snap(msg):
                 pid = spec_pid(msg[1])
@@ -561,16 +697,19 @@ def impl_conc(case, errs, tables, policy):
             # the order in which broadcast_event visits the listeners is the iteration order of a set built the
             # way broadcast_event builds it (hash order of the connection objects): configuration data of the run
             listeners = set().copy()
-            listeners.update(node.dispatcher._active_connections)
+            listeners.update(conns)
             visit_order = [c.cid for c in listeners]
-            roles = {m.updateLock.name: 'U', m.accessLock.name: 'A'}
+            roles = {m.updateLock.name: 'U', m.accessLock.name: 'A', node.dispatcher._lock.name: 'D'}
             sublock = getattr(node.dispatcher, '_subscription_lock', None)
             if sublock is not None:
                 roles[sublock.name] = 'S'
 
             def runprog(prog):
                 for pid, op in prog:
-                    do_op(m, case, pid, op, errs)
+                    if op[0] == 'activate':
+                        node.request(conns[op[1] % nconn], 'activate', conc_spec(op[2], op[3], npar), None)
+                    else:
+                        do_op(m, case, pid, op, errs)
                 s.yield_(('end',))        # makes the end of the thread's last segment visible in the trace
             for i, prog in enumerate(case['progs']):
                 s.spawn(f't{i}', runprog, (prog,))
@@ -605,15 +744,19 @@ def impl_conc(case, errs, tables, policy):
         pairs, ex, bad_law = eq_pairs(ids)
         req = {'p': 'C05', 'k': 'conc', 'eq': pairs, 'conv': conv, 'valid': valid, 'entries': entries,
                'conns': visit_order, 'tick': case['tick'], 'clock': clock0,
-               'progs': [[{'p': pid, 'op': wire_op(ids, case, pid, op, errs),
-                          'ts': ts_wire(op[4], T0) if op[0] == 'announce' and len(op) > 4 else None}
+               'progs': [[{'activate': op[1] % nconn + 1, 'ps': conc_pids(op[2], op[3], npar)} if op[0] == 'activate' else
+                          {'p': pid, 'op': wire_op(ids, case, pid, op, errs),
+                           'ts': ts_wire(op[4], T0) if op[0] == 'announce' and len(op) > 4 else None}
                          for pid, op in prog] for prog in case['progs']],
+               'act0': [[ci % nconn + 1, conc_pids(kind, target, npar)] for ci, kind, target in conc_pre(case)],
                'labels': labels}
         obs = {'init_x': init_x, 'logs_x': logs_x, 'logs_t': logs_t, 'final': final, 'ex': ex, 'bad_law': bad_law,
                'sched': out, 'unknown': unknown, 'visit_order': visit_order, 'choices': [c[1] for c in s.choices]}
         return req, obs, s
     finally:
         mb.time = saved
+        if 'node' in locals():
+            drop_loggers(node)
 
 
 def compare_conc(obs, ans):
@@ -634,12 +777,88 @@ def compare_conc(obs, ans):
     return None
 
 
-def judge_reqs_conc(obs):
+def conc_pre(case):
+    """the connections activated before the threads start: [[connection index, kind, target], ...]"""
+    if 'pre' in case:
+        return case['pre']
+    return [[ci, 'all', 0] for ci in range(case['nconn'])]
+
+
+def conc_pids(kind, target, npar):
+    """one module: general activation and module subscription cover all its parameters"""
+    return list(range(npar)) if kind in ('all', 'mod') else [target % npar]
+
+
+def conc_spec(kind, target, npar):
+    return {'all': None, 'mod': 'm', 'par': 'm:_' + PNAMES[target % npar]}[kind]
+
+
+def judge_reqs_conc(case, obs):
+    """per parameter: what every connection knew at the start, whether it is activated at the end, what it received"""
     reqs = []
-    for pid in range(len(obs['init_x'])):
-        reqs.append({'p': 'C05', 'k': 'judge_conc', 'init': obs['init_x'][pid], 'final': obs['final'][pid][1],
-                     'logs': [per[pid] for per in obs['logs_x']]})
+    npar = len(obs['init_x'])
+    nconn = case['nconn']
+    complete = not (obs['sched']['deadlock'] or obs['sched']['aborted'])
+    for pid in range(npar):
+        cl = []
+        for ci in range(nconn):
+            pre = any(c % nconn == ci and pid in conc_pids(kind, target, npar) for c, kind, target in conc_pre(case))
+            during = any(op[0] == 'activate' and op[1] % nconn == ci and pid in conc_pids(op[2], op[3], npar)
+                         for prog in case['progs'] for _, op in prog)
+            cl.append({'known': obs['init_x'][pid] if pre else None, 'activated': pre or (during and complete),
+                       'fromStart': pre and not during, 'log': obs['logs_x'][ci][pid]})
+        reqs.append({'p': 'C05', 'k': 'judge_conc_a', 'final': obs['final'][pid][1], 'conns': cl})
     return reqs
+
+
+def gen_kernel(rng):
+    """race kernel: two threads with ONE operation each on the same parameter (every pair of: equal / different value
+    by assignment, read, write, announce; failing read), sometimes a third thread that activates a second connection;
+    small enough that all schedules with one preemption are enumerated"""
+    cat = [['assign', 0], ['assign', 1], ['read', 'ret', 0], ['read', 'ret', 1], ['read', 'raise', 0],
+           ['write', 1, 'ok', ['none']], ['announce', 0, None, False]]
+    params = [{'kind': rng.choice(['float', 'int', 'enum', 'string']), 'uu': rng.choice(['default', 'never', 2.0, 'always']),
+               'nodefault': False, 'has_write': rng.random() < 0.5, 'has_check': False, 'readonly': False}]
+    progs = [[[0, list(rng.choice(cat))]], [[0, list(rng.choice(cat))]]]
+    if rng.random() < 0.4:
+        progs.append([[None, ['activate', 1, rng.choice(ACT_KINDS), 0]]])
+    return {'params': params, 'mw': rng.choice([None, 1.0]), 'gw': rng.choice([0.0, 1.0]), 'nconn': 2, 'pre': [[0, 'all', 0]],
+            'tick': rng.choice([0, 1]), 'progs': progs, 'kernel': True}
+
+
+def conc_shrink(ctx, case, errs, tables, clause, runs=40):
+    """fewer operations / threads / earlier activations that still show the same clause under SOME schedule with at most
+    two preemptions (the schedule is searched again for every candidate); returns the small case with its schedule"""
+    from vlib.sched import explore
+    found = {}
+
+    def build_case(items):
+        progs = [[] for _ in case['progs']]
+        pre = []
+        for it in items:
+            if it[0] == 'pre':
+                pre.append(it[1])
+            else:
+                progs[it[1]].append(it[2])
+        return dict({k: v for k, v in case.items() if k != 'choices'}, progs=[p for p in progs if p], pre=pre)
+
+    def fails(items):
+        c2 = build_case(items)
+        if not c2['progs']:
+            return False
+
+        def make_run(policy):
+            req, obs, s = impl_conc(c2, errs, tables, policy)
+            return s, obs
+        for _, _, obs in explore(make_run, max_preemptions=2, max_runs=runs):
+            jds = ctx.driver.batch(judge_reqs_conc(c2, obs))
+            if any(jd.get('bad') == clause for jd in jds):
+                found[json.dumps(items)] = (dict(c2, choices=obs['choices']), obs)
+                return True
+        return False
+    items = [['pre', p] for p in conc_pre(case)] + [['op', ti, step] for ti, prog in enumerate(case['progs']) for step in prog]
+    small = ddmin(items, fails)
+    return found.get(json.dumps(small))
 
 
 def gen_conc(rng, big):
@@ -656,11 +875,25 @@ def gen_conc(rng, big):
             pid = rng.randrange(npar)
             nvalid, nall = pool_size(params[pid]['kind'])
             op = gen_op(rng, params[pid], min(nvalid, 3), nall, nerr)
+            if op[0] == 'hidden':          # the parameter that is not exported is not part of the small-step system
+                op = ['assign', rng.randrange(min(nvalid, 3))]
             if op[0] == 'announce' and rng.random() < 0.5:
                 op.append(rng.choice(TS_ARGS))
             prog.append([pid, op])
         progs.append(prog)
-    return {'params': params, 'mw': rng.choice(MW), 'gw': rng.choice(GW), 'nconn': rng.choice([1, 2, 2, 3]),
+    nconn = rng.choice([1, 2, 2, 3])
+    # connections activated before the threads start, and activation requests handled while the funnel is in use
+    # (most runs have a connection that is activated all along: it is the one that sees every race between funnel calls)
+    pre = [[ci, 'all' if ci == 0 else rng.choice(ACT_KINDS), rng.randrange(npar)] for ci in range(nconn)
+           if rng.random() < (0.85 if ci == 0 else 0.5)]
+    for _ in range(rng.choice([0, 1, 1, 1, 2])):
+        if len(progs) < 3 and rng.random() < 0.4:
+            progs.append([])                      # a handler thread that only activates
+        prog = rng.choice(progs)
+        prog.insert(rng.randrange(len(prog) + 1),
+                    [None, ['activate', rng.randrange(nconn), rng.choice(ACT_KINDS), rng.randrange(npar)]])
+    progs = [p for p in progs if p]
+    return {'params': params, 'mw': rng.choice(MW), 'gw': rng.choice(GW), 'nconn': nconn, 'pre': pre,
             'tick': rng.choice([0, 1, 1, 3, 40]), 'progs': progs}
 
 
@@ -704,11 +937,12 @@ def impl_builtin(case):
         m = node.modules['m']
         ids = Ids({0: m.parameters['p'].datatype})
         conn = node.connect()
-        node.request(conn, 'activate', None, None)
-        conn.msgs.clear()
         init_x = cache_obs(ids, m, 0)[1]
+        node.request(conn, 'activate', None, None)
+        snap = [msg_obs(ids, 0, msg)[0] for msg in conn.msgs if spec_pid(msg[1]) == 0]
+        conn.msgs.clear()
         now = T0
-        outs = []
+        outs = [{'msgs': [[ve, 0] for ve in snap], 'cache_x': cache_obs(ids, m, 0)[1]}]      # step 0: the activation
         for dt, op in case['ops']:
             now += dt
             clock.ticks = now
@@ -735,7 +969,15 @@ def impl_builtin(case):
         return {'init_x': init_x, 'outs': outs}
     finally:
         mb.time = saved
+        if 'node' in locals():
+            drop_loggers(node)
         shutil.rmtree(tmp, ignore_errors=True)
+
+
+def builtin_judge_req(r):
+    """the stream from the activation on (step 0); the client knows nothing before"""
+    return {'p': 'C05', 'k': 'judge_seq', 'init': None, 'prev': r['init_x'],
+            'trace': [{'msgs': [ve for ve, _ in o['msgs']], 'cache': o['cache_x']} for o in r['outs']]}
 
 
 def gen_builtin(rng, which):
@@ -819,7 +1061,8 @@ def build_follow(case, clock):
     ps = case['params'][0]
     factory, valid, _ = cat[ps['kind']]
     dt = factory()
-    cls = make_class({'p': (dt, NODEFAULT if ps['nodefault'] else valid[0], ps['uu'], ps['has_write'], ps['has_check'])})
+    cls = make_class({'p': (dt, NODEFAULT if ps['nodefault'] else valid[0], ps['uu'], ps['has_write'], ps['has_check'],
+                            ps.get('readonly', False))})
     cfg = {'m': {'cls': cls, 'description': 'source'}}
     if case['mw'] is not None:
         cfg['m']['omit_unchanged_within'] = case['mw']
@@ -898,10 +1141,10 @@ def impl_follow(case, errs, tables):
             ids.vid(pid, mods[pid].parameters['p'].value)
         for e in errs:
             ids.eid(e)
-        conn = node.connect()
-        node.request(conn, 'activate', None, None)
-        conn.msgs.clear()
+        steps = norm_steps(case['ops'])
+        conns = [node.connect() for _ in range(n_conns(steps))]
         m = mods[0]
+        modnames = ['m'] + [f'f{j + 1}' for j in range(len(case['followers']))]
 
         def entry(pid):
             po = mods[pid].parameters['p']
@@ -915,33 +1158,38 @@ def impl_follow(case, errs, tables):
         init = [cache_obs_of(ids, mods[pid], pid) for pid in range(n)]
         now = T0
         ops, outs = [], []
-        for step in case['ops']:
+        for step in steps:
             dt, op = step[0], step[1]
             ts = step[2] if len(step) > 2 else None
             now += dt
             clock.ticks = now
-            ops.append({'now': now, 'ts': ts_wire(ts, now) if op[0] == 'announce' else None,
-                        'op': wire_op(ids, case, 0, op, errs)})
-            if op[0] == 'announce' and ts is not None:
-                _, vidx, eidx, validate = op
-                value, validate = announce_arg(dts[0], case, 0, vidx, eidx, validate)
-                try:
-                    m.announceUpdate('p', value, None if eidx is None else clone_error(errs[eidx % len(errs)]),
-                                     timestamp=ts_value(ts, now), validate=validate)
-                except Exception:
-                    pass
+            failed = []
+            if op[0] == 'activate':
+                pids = act_pids(op, n)
+                ops.append({'now': now, 'ts': None, 'op': ['activate', op[1] + 1, pids]})
+                mn = modnames[pids[0]]
+                reply = node.request(conns[op[1]], 'activate', {'all': None, 'mod': mn, 'par': mn + ':_p'}[op[2]], None)
+                if reply[0] != 'active':
+                    failed = ['activate:' + str(reply[0])]
             else:
-                do_op(m, case, 0, op, errs)
-            msgs, other = [], []
-            for msg in conn.msgs:
-                pid = fspec_pid(msg[1])
-                if pid is None or msg[0] not in ('update', 'error_update'):
-                    other.append(msg[0])
+                ops.append({'now': now, 'ts': ts_wire(ts, now) if op[0] == 'announce' else None,
+                            'op': wire_op(ids, case, 0, op, errs)})
+                if op[0] == 'announce' and ts is not None:
+                    _, vidx, eidx, validate = op
+                    value, validate = announce_arg(dts[0], case, 0, vidx, eidx, validate)
+                    try:
+                        m.announceUpdate('p', value, None if eidx is None else clone_error(errs[eidx % len(errs)]),
+                                         timestamp=ts_value(ts, now), validate=validate)
+                    except Exception:
+                        pass
                 else:
-                    ve, t = msg_obs(ids, pid, msg)
-                    msgs.append([pid, ve, t])
-            conn.msgs.clear()
-            outs.append({'msgs': msgs, 'other': other, 'caches': [cache_obs_of(ids, mods[pid], pid) for pid in range(n)]})
+                    do_op(m, case, 0, op, errs)
+            recv, other = drain_conns(ids, conns, fspec_pid)
+            caches = [cache_obs_of(ids, mods[pid], pid) for pid in range(n)]
+            outs.append({'recv': recv, 'other': other + failed, 'caches': caches, 'caches_x': [c[1] for c in caches]})
+        main = next(st[1][1] for st in steps if st[1][0] == 'activate')
+        for o in outs:
+            o['msgs'] = o['recv'][main]
         # oracle table of the callbacks: for every value the source can hold and every error
         followers = []
         src_vals = [(i, obj) for i, (pid, obj) in enumerate(list(ids.vobj)) if pid == 0]
@@ -970,10 +1218,13 @@ def impl_follow(case, errs, tables):
             followers.append({'q': q, 'rows': rows})
         pairs, ex, bad_law = eq_pairs(ids)
         req = {'p': 'C05', 'k': 'seqm', 'eq': pairs, 'conv': conv, 'valid': valid, 'entries': entries,
-               'followers': followers, 'ops': ops}
-        return {'req': req, 'outs': outs, 'init': init, 'ex': ex, 'bad_law': bad_law, 'real_windows': real_windows, 'n': n}
+               'followers': followers, 'ops': ops, 'cids': list(range(1, len(conns) + 1))}
+        return {'req': req, 'outs': outs, 'init': init, 'ex': ex, 'bad_law': bad_law, 'real_windows': real_windows, 'n': n,
+                'steps': steps}
     finally:
         mb.time = saved
+        if 'node' in locals():
+            drop_loggers(node)
 
 
 def compare_follow(run, ans):
@@ -981,21 +1232,19 @@ def compare_follow(run, ans):
         return f'windows: model {ans["windows"]} impl {run["real_windows"]}'
     if ans['init'] != [i[0] for i in run['init']]:
         return f'initial entries: model {ans["init"]} impl {[i[0] for i in run["init"]]}'
+    diff = compare_recv(run['outs'], ans['outs'], run['ex'])
+    if diff:
+        return diff
     for i, (mo, io) in enumerate(zip(ans['outs'], run['outs'])):
-        mm = [[pid, ex_ve(run['ex'], ve), t] for pid, ve, t in mo['msgs']]
-        if mm != io['msgs']:
-            return f'op {i}: messages model {mm} impl {io["msgs"]}'
         if mo['caches'] != [c[0] for c in io['caches']] or mo['ts'] != [c[2] for c in io['caches']]:
-            return f'op {i}: caches model {mo["caches"]}@{mo["ts"]} impl {[(c[0], c[2]) for c in io["caches"]]}'
+            return f'step {i}: caches model {mo["caches"]}@{mo["ts"]} impl {[(c[0], c[2]) for c in io["caches"]]}'
         if io['other']:
-            return f'op {i}: unexpected messages {io["other"]}'
+            return f'step {i}: unexpected messages {io["other"]}'
     return None
 
 
 def judge_reqs_follow(run):
-    return [{'p': 'C05', 'k': 'judge_seq', 'init': run['init'][pid][1],
-             'trace': [{'msgs': [ve for q, ve, _ in o['msgs'] if q == pid], 'cache': o['caches'][pid][1]}
-                       for o in run['outs']]} for pid in range(run['n'])]
+    return stream_judge_reqs(run['steps'], run['outs'], [i[1] for i in run['init']], run['n'])
 
 
 def gen_follow(rng, big):
@@ -1007,18 +1256,19 @@ def gen_follow(rng, big):
                                   'exc': rng.choice(FEXC), 'on_err': rng.choice(['pass', 'pass', 'raise']),
                                   'target': rng.random() < 0.7, 'uu': rng.choice(UU),
                                   'raise_idx': rng.sample(range(nvalid), rng.choice([0, 1, 1, 2]))})
+    n = 1 + len(case['followers'])
     for step in case['ops']:
         if step[1][0] == 'announce' and rng.random() < 0.5:
             step.append(rng.choice(TS_ARGS))
+        if step[1][0] == 'activate':
+            step[1][3] = rng.randrange(n)          # module the 'mod' / 'par' subscription is for
     return case
 
 
 def follow_fails(ctx, case, errs, tables):
     run = impl_follow(case, errs, tables)
-    for pid, jd in enumerate(ctx.driver.batch(judge_reqs_follow(run))):
-        if jd.get('bad') is not None:
-            return [pid] + jd['bad']
-    return None
+    jreqs = judge_reqs_follow(run)
+    return first_bad(jreqs, ctx.driver.batch([r[3] for r in jreqs]))
 
 # ----------------------------------------------------------------------------------------
 def _tables(ctx):
@@ -1027,14 +1277,15 @@ def _tables(ctx):
 
 def seq_fails(ctx, case, errs, tables):
     run = impl_seq(case, errs, tables)
-    j = ctx.driver.batch([judge_req_seq(run)])[0]
-    return j.get('bad')
+    jreqs = judge_reqs_seq(run)
+    return first_bad(jreqs, ctx.driver.batch([r[3] for r in jreqs]))
 
 
 def run(ctx):
     from vlib.sched import explore, RandomPolicy
     res = Result()
-    res.rule = ('sequential: generated histories (read ok / raising / invalid / Done, write with every write_ outcome and check '
+    res.rule = ('every connection is judged from its own activate request on (general / module / parameter subscription, at the '
+                'start or in the middle of the history, 1-3 connections, re-activation included).  sequential: generated histories (read ok / raising / invalid / Done, write with every write_ outcome and check '
                 'function, assignment, explicit announceUpdate with and without error, repeats) on one generated parameter of 10 '
                 'datatypes under every update_unchanged / module / general window setting with clock steps inside, at and outside the '
                 'window; non-trivial = at least one message suppressed, one error announced and one recovery.  concurrent: 1-3 threads '
@@ -1055,73 +1306,84 @@ def run(ctx):
         for fn in sorted(os.listdir(cdir)):
             c = json.load(open(os.path.join(cdir, fn)))
             {'seq': seq_cases, 'conc': conc_corpus, 'builtin': builtin_corpus, 'follow': follow_corpus}[c['kind']].append(c['case'])
-    for _ in range(ctx.budget(2000, 10000)):
+    for _ in range(ctx.budget(3000, 20000)):
         seq_cases.append(gen_seq(rng, big))
     shrunk = 0
     CH = 1000
     for start in range(0, len(seq_cases), CH):
         chunk = seq_cases[start:start + CH]
         runs = [impl_seq(case, errs, tables) for case in chunk]
-        reqs = []
+        reqs, pos = [], []
         for r in runs:
+            r['jreqs'] = judge_reqs_seq(r)
+            pos.append(len(reqs))
             reqs.append(r['req'])
-            reqs.append(judge_req_seq(r))
+            reqs += [q[3] for q in r['jreqs']]
         answers = ctx.driver.batch(reqs)
-        for i, (case, r) in enumerate(zip(chunk, runs)):
-            ans, jd = answers[2 * i], answers[2 * i + 1]
-            if 'driver_error' in ans or 'driver_error' in jd:
-                raise RuntimeError(f'driver error: {ans} {jd} {json.dumps(r["req"])[:400]}')
+        for case, r, at in zip(chunk, runs, pos):
+            ans, jds = answers[at], answers[at + 1: at + 1 + len(r['jreqs'])]
+            if any('driver_error' in a for a in [ans] + jds):
+                raise RuntimeError(f'driver error: {ans} {jds} {json.dumps(r["req"])[:400]}')
             res.evaluations += 1
             res.traces += 1
             ps = case['params'][0]
             res.count('seq.kind=' + ps['kind'])
             res.count('seq.uu=' + str(ps['uu']))
             nmsg = sum(len(o['msgs']) for o in r['outs'])
-            nsup = sum(1 for o in r['outs'] if not o['msgs'])
+            nsup = sum(1 for o, st in zip(r['outs'], r['steps']) if not o['msgs'] and st[1][0] != 'activate')
             nerr = sum(1 for o in r['outs'] for ve, _ in o['msgs'] if ve[0] == 'e')
             nrec = sum(1 for a, b in zip([{'cache_x': r['init_x']}] + r['outs'], r['outs'])
                        if a['cache_x'][0] == 'e' and b['cache_x'][0] == 'v')
+            nact = sum(1 for st in r['steps'] if st[1][0] == 'activate')
+            late = sum(1 for i, st in enumerate(r['steps']) if st[1][0] == 'activate' and i > 0)
             res.count('seq.messages=' + ('0' if nmsg == 0 else '1-3' if nmsg < 4 else '4+'))
             res.count('seq.suppressed=' + ('0' if nsup == 0 else '1-3' if nsup < 4 else '4+'))
             res.count('seq.recoveries=' + ('0' if nrec == 0 else '1+'))
+            res.count('seq.activations=' + ('1' if nact == 1 else '2' if nact == 2 else '3+'))
+            res.count('seq.activation-mid-history=' + ('yes' if late else 'no'))
+            res.count('seq.snapshot-of=' + ('error' if any(st[1][0] == 'activate' and o['cache_x'][0] == 'e'
+                                                           for o, st in zip(r['outs'], r['steps'])) else 'value'))
             if r['bad_law']:
                 res.count('seq.export-law-broken')
             if nsup and nerr and nrec:
                 res.nontriv(case)
                 if len(res.samples) < 3 and len(case['ops']) < 8:
                     res.samples.append({'kind': 'seq', 'case': case,
-                                        'obs': [[o['msgs'], o['cache_x']] for o in r['outs']]})
+                                        'obs': [[o['recv'], o['cache_x']] for o in r['outs']]})
             if ctx.model_ok:
                 diff = compare_seq(r, ans)
                 if diff:
                     res.disagreements.append({'case': {'kind': 'seq', 'case': case}, 'model': diff, 'impl': 'see replay'})
-            if jd['bad'] is not None:
+            bad0 = first_bad(r['jreqs'], jds)
+            if bad0 is not None:
                 small = case
                 if shrunk < 3:
                     shrunk += 1
-                    ops = ddmin(case['ops'], lambda o, case=case: seq_fails(ctx, dict(case, ops=o), errs, tables))
+                    ops = ddmin(r['steps'], lambda o, case=case: seq_fails(ctx, dict(case, ops=o), errs, tables))
                     small = dict(case, ops=ops)
-                bad = (seq_fails(ctx, small, errs, tables) if small is not case else None) or jd['bad']
-                res.violations.append({'sig': 'C05:seq:' + bad[1], 'case': {'kind': 'seq', 'case': small},
-                                       'what': f'history on a {ps["kind"]} parameter (update_unchanged={ps["uu"]}): operation '
-                                               f'{bad[0]} breaks "{bad[1]}": ops={small["ops"]}',
+                bad = (seq_fails(ctx, small, errs, tables) if small is not case else None) or bad0
+                res.violations.append({'sig': 'C05:seq:' + bad[3], 'case': {'kind': 'seq', 'case': small},
+                                       'what': f'history on a {ps["kind"]} parameter (update_unchanged={ps["uu"]}): step '
+                                               f'{bad[2]} breaks "{bad[3]}" for connection {bad[0] + 1}: '
+                                               f'steps={norm_steps(small["ops"])}',
                                        'detail': {'original': case}})
 
     # ---------------- followers attached with registerCallbacks; explicit time stamps ----------------
     fcases = list(follow_corpus)
-    for _ in range(ctx.budget(600, 6000)):
+    for _ in range(ctx.budget(1000, 10000)):
         fcases.append(gen_follow(rng, big))
     for start in range(0, len(fcases), CH):
         chunk = fcases[start:start + CH]
         runs = [impl_follow(case, errs, tables) for case in chunk]
         reqs, pos = [], []
         for r in runs:
+            r['jreqs'] = judge_reqs_follow(r)
             pos.append(len(reqs))
             reqs.append(r['req'])
-            reqs += judge_reqs_follow(r)
+            reqs += [q[3] for q in r['jreqs']]
         answers = ctx.driver.batch(reqs)
         for case, r, at in zip(chunk, runs, pos):
-            ans, jds = answers[at], answers[at + 1: at + 1 + r['n']]
+            ans, jds = answers[at], answers[at + 1: at + 1 + len(r['jreqs'])]
             if any('driver_error' in a for a in [ans] + jds):
                 raise RuntimeError(f'driver error: {ans} {jds} {json.dumps(r["req"])[:600]}')
             res.evaluations += 1
@@ -1129,6 +1391,9 @@ def run(ctx):
             res.count('follow.followers=%d' % len(case['followers']))
             for fs in case['followers']:
                 res.count('follow.kind=' + fs['kind'])
+            for st in r['steps']:
+                if st[1][0] == 'activate':
+                    res.count('follow.activate=' + st[1][2])
             escaped = sum(1 for f in r['req']['followers'] for row in f['rows'] if row[1] != 'ok')
             nested = sum(1 for o in r['outs'] for q, _, _ in o['msgs'] if q > 0)
             res.count('follow.raising-callback-possible=' + ('yes' if escaped else 'no'))
@@ -1139,30 +1404,28 @@ def run(ctx):
                 diff = compare_follow(r, ans)
                 if diff:
                     res.disagreements.append({'case': {'kind': 'follow', 'case': case}, 'model': diff, 'impl': 'see replay'})
-            for pid, jd in enumerate(jds):
-                if jd['bad'] is not None:
-                    small = case
-                    if shrunk < 6:
-                        shrunk += 1
-                        ops = ddmin(case['ops'], lambda o, case=case: follow_fails(ctx, dict(case, ops=o), errs, tables))
-                        small = dict(case, ops=ops)
-                    bad = (follow_fails(ctx, small, errs, tables) if small is not case else None) or [pid] + jd['bad']
-                    who = 'source' if bad[0] == 0 else f'follower {bad[0]}'
-                    res.violations.append({'sig': f'C05:follow:{"source" if bad[0] == 0 else "follower"}:{bad[2]}',
-                                           'case': {'kind': 'follow', 'case': small},
-                                           'what': f'{len(case["followers"])} follower module(s) {[f["kind"] + "/" + f["exc"] for f in case["followers"]]} '
-                                                   f'attached with registerCallbacks to a {case["params"][0]["kind"]} parameter: '
-                                                   f'operation {bad[1]} breaks "{bad[2]}" for the {who} parameter: ops={small["ops"]}'})
-                    break
+            bad0 = first_bad(r['jreqs'], jds)
+            if bad0 is not None:
+                small = case
+                if shrunk < 6:
+                    shrunk += 1
+                    ops = ddmin(r['steps'], lambda o, case=case: follow_fails(ctx, dict(case, ops=o), errs, tables))
+                    small = dict(case, ops=ops)
+                bad = (follow_fails(ctx, small, errs, tables) if small is not case else None) or bad0
+                who = 'source' if bad[1] == 0 else f'follower {bad[1]}'
+                res.violations.append({'sig': f'C05:follow:{"source" if bad[1] == 0 else "follower"}:{bad[3]}',
+                                       'case': {'kind': 'follow', 'case': small},
+                                       'what': f'{len(case["followers"])} follower module(s) {[f["kind"] + "/" + f["exc"] for f in case["followers"]]} '
+                                               f'attached with registerCallbacks to a {case["params"][0]["kind"]} parameter: '
+                                               f'step {bad[2]} breaks "{bad[3]}" for the {who} parameter on connection '
+                                               f'{bad[0] + 1}: steps={norm_steps(small["ops"])}'})
 
     # ---------------- framework drivers that store into the cache themselves ----------------
     bcases = list(builtin_corpus)
     for _ in range(ctx.budget(60, 300)):
         bcases.append(gen_builtin(rng, rng.choice(['sim', 'persistent', 'persistentw'])))
     bruns = [impl_builtin(c) for c in bcases]
-    answers = ctx.driver.batch([{'p': 'C05', 'k': 'judge_seq', 'init': r['init_x'],
-                                 'trace': [{'msgs': [ve for ve, _ in o['msgs']], 'cache': o['cache_x']} for o in r['outs']]}
-                                for r in bruns])
+    answers = ctx.driver.batch([builtin_judge_req(r) for r in bruns])
     for case, r, jd in zip(bcases, bruns, answers):
         res.evaluations += 1
         res.traces += 1
@@ -1170,9 +1433,7 @@ def run(ctx):
         if jd.get('bad') is not None:
             def fails(ops, case=case):
                 rr = impl_builtin(dict(case, ops=ops))
-                return ctx.driver.batch([{'p': 'C05', 'k': 'judge_seq', 'init': rr['init_x'],
-                                          'trace': [{'msgs': [ve for ve, _ in o['msgs']], 'cache': o['cache_x']}
-                                                    for o in rr['outs']]}])[0].get('bad') is not None
+                return ctx.driver.batch([builtin_judge_req(rr)])[0].get('bad') is not None
             small = dict(case, ops=ddmin(case['ops'], fails)) if shrunk < 6 else case
             shrunk += 1
             res.violations.append({'sig': f'C05:builtin:{case["which"]}:{jd["bad"][1]}',
@@ -1181,12 +1442,14 @@ def run(ctx):
                                            f'"{jd["bad"][1]}" with ops={small["ops"]} (general window {case["gw"]} s)'})
 
     # ---------------- concurrent ----------------
-    n_sched = ctx.budget(300, 2000)
+    n_sched = ctx.budget(600, 5000)
     conc_cases = list(conc_corpus)
     ncases = max(6, n_sched // 25)
     for _ in range(ncases):
         conc_cases.append(gen_conc(rng, big))
     per_case = max(4, n_sched // max(1, len(conc_cases)))
+    for _ in range(ctx.budget(40, 400)):
+        conc_cases.append(gen_kernel(rng))
     reqs, meta = [], []
     for case in conc_cases:
         def make_run(policy, case=case):
@@ -1197,6 +1460,9 @@ def run(ctx):
             from vlib.sched import ReplayThenDefault
             req, obs, s = impl_conc(case, errs, tables, ReplayThenDefault(case['choices']))
             runs = [(req, obs)]
+        elif case.get('kernel'):
+            runs = [ro for _, s, ro in explore(make_run, max_preemptions=1, max_runs=80)]
+            res.count('conc.kernel-schedules=' + ('<40' if len(runs) < 40 else '40-79' if len(runs) < 80 else '80 (cut)'))
         else:
             runs = []
             for _, s, ro in explore(make_run, max_preemptions=2, max_runs=(per_case * 2) // 3, rng=rng):
@@ -1208,8 +1474,9 @@ def run(ctx):
             n += 1
             meta.append((case, obs, len(reqs)))
             reqs.append(req)
-            reqs += judge_reqs_conc(obs)
+            reqs += judge_reqs_conc(case, obs)
     answers = ctx.driver.batch(reqs)
+    conc_shrunk = 0
     for case, obs, pos in meta:
         ans = answers[pos]
         jds = answers[pos + 1: pos + 1 + len(obs['init_x'])]
@@ -1222,9 +1489,15 @@ def run(ctx):
         nmsg = sum(len(l) for l in obs['logs_x'][0])
         res.count('conc.messages=' + ('0' if nmsg == 0 else '1' if nmsg == 1 else '2+'))
         touched = {}
+        nact = 0
         for ti, prog in enumerate(case['progs']):
-            for pid, _ in prog:
-                touched.setdefault(pid, set()).add(ti)
+            for pid, op in prog:
+                if op[0] == 'activate':
+                    nact += 1
+                else:
+                    touched.setdefault(pid, set()).add(ti)
+        res.count('conc.activations-during-run=%d' % nact)
+        res.count('conc.pre-activated=%d' % len({c % case['nconn'] for c, _, _ in conc_pre(case)}))
         if any(len(v) > 1 for v in touched.values()) and nmsg >= 2:
             res.nontriv({'case': case, 'choices': obs['choices']})
             if sum(1 for x in res.samples if x.get('kind') == 'conc') < 2:
@@ -1237,10 +1510,25 @@ def run(ctx):
                 res.disagreements.append({'case': {'kind': 'conc', 'case': fixed}, 'model': diff, 'impl': 'see replay'})
         for pid, jd in enumerate(jds):
             if jd['bad'] is not None:
+                if conc_shrunk < 2:
+                    conc_shrunk += 1
+                    sm = conc_shrink(ctx, case, errs, tables, jd['bad'])
+                    if sm is not None:
+                        c2, o2 = sm
+                        j2 = ctx.driver.batch(judge_reqs_conc(c2, o2))
+                        p2 = next(i for i, a in enumerate(j2) if a.get('bad') == jd['bad'])
+                        res.violations.append({'sig': 'C05:conc:' + jd['bad'], 'case': {'kind': 'conc', 'case': c2},
+                                               'what': f'threads {c2["progs"]}, connections activated before {conc_pre(c2)}, '
+                                                       f'{c2["nconn"]} connections, schedule {o2["choices"]}: parameter {p2}: '
+                                                       f'"{jd["bad"]}": per connection [message, cache at delivery]='
+                                                       f'{[per[p2] for per in o2["logs_x"]]} final={o2["final"][p2][1]}',
+                                               'detail': {'original': fixed}})
+                        continue
                 res.violations.append({'sig': 'C05:conc:' + jd['bad'], 'case': {'kind': 'conc', 'case': fixed},
-                                       'what': f'{len(case["progs"])} threads, schedule {obs["choices"]}: parameter {pid}: '
-                                               f'"{jd["bad"]}": logs={[per[pid] for per in obs["logs_x"]]} '
-                                               f'final={obs["final"][pid][1]}'})
+                                       'what': f'{len(case["progs"])} threads {case["progs"]}, connections activated before '
+                                               f'{conc_pre(case)}, schedule {obs["choices"]}: parameter {pid}: '
+                                               f'"{jd["bad"]}": per connection [message, cache at delivery]='
+                                               f'{[per[pid] for per in obs["logs_x"]]} final={obs["final"][pid][1]}'})
     return res
 
 
@@ -1253,35 +1541,37 @@ def replay(ctx, rp):
         case = {'kind': rp['kind'], 'case': case}      # a corpus file
     if case['kind'] == 'seq':
         r = impl_seq(case['case'], errs, tables)
-        ans, jd = ctx.driver.batch([r['req'], judge_req_seq(r)])
+        jreqs = judge_reqs_seq(r)
+        answers = ctx.driver.batch([r['req']] + [q[3] for q in jreqs])
         print('case  :', json.dumps(case['case']))
         for i, o in enumerate(r['outs']):
-            print(f'  op {i}: {case["case"]["ops"][i]} -> msgs {o["msgs"]} cache {o["cache_x"]}@{o["ts"]}')
-        print('model :', compare_seq(r, ans) or 'agrees with the implementation')
-        print('judge :', jd)
-        return 0 if jd.get('bad') is None else 1
+            print(f'  step {i}: {r["steps"][i]} -> per connection {o["recv"]} cache {o["cache_x"]}@{o["ts"]}')
+        print('model :', compare_seq(r, answers[0]) or 'agrees with the implementation')
+        print('judge :', [(f'conn {ci + 1}', f'from step {first}', jd) for (ci, _, first, _), jd in zip(jreqs, answers[1:])])
+        return 0 if all(a.get('bad') is None for a in answers[1:]) else 1
     if case['kind'] == 'follow':
         r = impl_follow(case['case'], errs, tables)
-        answers = ctx.driver.batch([r['req']] + judge_reqs_follow(r))
+        jreqs = judge_reqs_follow(r)
+        answers = ctx.driver.batch([r['req']] + [q[3] for q in jreqs])
         print('case  :', json.dumps(case['case']))
         for i, o in enumerate(r['outs']):
-            print(f'  op {i}: {case["case"]["ops"][i]} -> msgs {o["msgs"]} caches {[c[1] for c in o["caches"]]}')
+            print(f'  step {i}: {r["steps"][i]} -> per connection {o["recv"]} caches {o["caches_x"]}')
         print('model :', compare_follow(r, answers[0]) or 'agrees with the implementation')
-        print('judge :', answers[1:])
+        print('judge :', [(f'conn {ci + 1}', f'param {pid}', f'from step {first}', jd)
+                          for (ci, pid, first, _), jd in zip(jreqs, answers[1:])])
         return 0 if all(a.get('bad') is None for a in answers[1:]) else 1
     if case['kind'] == 'builtin':
         r = impl_builtin(case['case'])
-        jd = ctx.driver.batch([{'p': 'C05', 'k': 'judge_seq', 'init': r['init_x'],
-                                'trace': [{'msgs': [ve for ve, _ in o['msgs']], 'cache': o['cache_x']} for o in r['outs']]}])[0]
+        jd = ctx.driver.batch([builtin_judge_req(r)])[0]
         print('case  :', json.dumps(case['case']))
         print('init  :', r['init_x'])
         for i, o in enumerate(r['outs']):
-            print(f'  op {i}: {case["case"]["ops"][i]} -> msgs {[ve for ve, _ in o["msgs"]]} cache {o["cache_x"]}')
+            print(f'  step {i}: {(["activate"] + case["case"]["ops"])[i]} -> msgs {[ve for ve, _ in o["msgs"]]} cache {o["cache_x"]}')
         print('judge :', jd)
         return 0 if jd.get('bad') is None else 1
     c = case['case']
     req, obs, s = impl_conc(c, errs, tables, ReplayThenDefault(c.get('choices', [])))
-    answers = ctx.driver.batch([req] + judge_reqs_conc(obs))
+    answers = ctx.driver.batch([req] + judge_reqs_conc(c, obs))
     print('case  :', json.dumps(c))
     print('trace :', s.trace)
     print('logs  :', obs['logs_x'])
